@@ -18,6 +18,9 @@ CHECKS = {
     "C16": dict(level="exploration", technique=DIFF + "; pull counting through a recording writer for laziness",
                 text="held on the executions observed: generator histories (each generator consumed by its consumers and again by the dump) compared with re-creatable Python streams; laziness is observed directly: the source is wrapped in display(), the lines written are the elements pulled, compared with what a maximally lazy Python pipeline pulls plus a constant per adaptor",
                 note="first 40 elements compared; pipelines whose model would search without bound are not generated (C10 covers termination)"),
+    "C17": dict(level="exploration", technique=DIFF + "; persistence: every version re-read after all later updates",
+                text="held on the executions observed: histories of 1-40 mapping/set operations under hash functions from injective to constant and equalities coarser than identity, every version compared with an association-list model after the whole history ran; equal collections reached by different histories must also hash equally",
+                note="keys compared modulo the generated equality; keys and values are ints; one hash/equality pair per history"),
 }
 REASON_PENDING = "check under construction in this round (not yet claimed)"
 
